@@ -328,6 +328,21 @@ def run_stft(c):
     log.append("after")
     return [v / 2 for v in blk]
 
+  class Falsy(object):
+    """A stage given as a callable *object* whose truth value is False (it defines __len__)."""
+    def __init__(self, f):
+      self.f = f
+
+    def __call__(self, *a):
+      return self.f(*a)
+
+    def __len__(self):
+      return 0
+  falsy_stages = c["split"][2] and not c["split"][5]
+  if falsy_stages:
+    # (not the transform pair: the unchanged wrapper builds "transform and (lambda ...)", so a falsy
+    #  transform object is called without the size argument - outside what the property states)
+    func, b_scale, a_scale = Falsy(func), Falsy(b_scale), Falsy(a_scale)
   opts = {"size": size, "ola": rec_ola, "transform": None, "inverse_transform": None,
           "before": None, "after": None}
   expect_order = ["func"]
@@ -349,8 +364,15 @@ def run_stft(c):
   # options of a user-supplied overlap-add strategy: the prefix is removed, nothing else
   for i, name in enumerate(EXTRA):
     if c["split"][(i + 2) % 8] and c["split"][(i + 5) % 8]:
-      opts["ola_" + name] = i
-      expect_ola[name] = i
+      # (an explicit None is a value like any other: it is passed on, not treated as "unset")
+      opts["ola_" + name] = None if i % 3 == 1 else i
+      expect_ola[name] = None if i % 3 == 1 else i
+  # the overlap-add may be given its own size / hop (synthesis hop different from the analysis hop)
+  own_hop = None
+  if c["split"][1] and c["split"][6] and size > 1:
+    own_hop = 1 if hop != 1 else size
+    opts["ola_hop"] = own_hop
+    expect_ola["hop"] = own_hop
   if c["window_at"] == "analysis":
     opts["wnd"] = mk_window(c["wkind"], w)
   elif c["window_at"] == "ola":
@@ -413,6 +435,8 @@ def run_stft(c):
     raise Violation("overlap-add called %d times" % len(ola_kw))
   if ola_kw[0] != expect_ola:
     raise Violation("overlap-add received %r, expected %r" % (ola_kw[0], expect_ola))
+  if own_hop is not None:
+    return {"nontrivial": nb >= 2, "labels": ["style:" + style, "overlap-add with its own hop"]}
   # --- reconstruction (identity processing; the scale pair cancels, 'before only' doubles)
   factor = 2 if st_ == "before only" else 1
   N = len(sig)
